@@ -72,3 +72,13 @@ Proof. intros A B. exact (proj2 (tie_fuse_overlap k A B)). Qed.
 Theorem C17_source_partial_mask_structure k : gen_erode_size k = k + 2 /\ gen_partial_mask_ok = true.
 Proof. exact (tie_partial_mask k). Qed.
 Print Assumptions C17_source_overlap_with_partial_masking.
+
+(* ---- tie to the source (gen/Pipeline.v, regenerated on every run by translate/pipeline.py from kernel_model.RefSpaceModel / SrcSpaceModel,
+        fuse._process_block / process, compare.get_block_sums) *)
+From HV Require Import Kernel.Flow Tie.PipelineTie.
+From HVgen Require Import Pipeline.
+(* with partial masking on, the CURRENT source applies the full-coverage mask: on the reference grid brought to the source grid by a nearest
+   re-projection (no nodata value, so that 0 stays 0), on the source grid directly *)
+Theorem C17_source_partial_mask_flow : Pipeline.translation_failed = false /\ gen_ref_apply_mask true = MCoverNearest /\ gen_src_fit_mask true = MCover.
+Proof. destruct (pipeline_tied0 true) as (A & _ & (B & C) & _). repeat split; assumption. Qed.
+Print Assumptions C17_source_partial_mask_flow.
